@@ -290,6 +290,19 @@ def pair_worker(task):
                     elif r is not op(va_, vb_):
                         bad.append(("generic-SI-compare", a.__name__, name,
                                     b.__name__, (va_, vb_), r))
+                # values derived from a generic value keep its unit text
+                try:
+                    for r_, w_ in ((-ga, -va_), (abs(ga), abs(va_)),
+                                   (ga * 2, va_ * 2), (ga / 2, va_ / 2)):
+                        n += 1
+                        if float(r_) != w_ or r_.unit != ga.unit or \
+                                list(r_.sisig()) != list(ga.sisig()):
+                            bad.append(("generic-SI-derived-value",
+                                        a.__name__, float(r_), w_, r_.unit,
+                                        ga.unit))
+                except Exception as ex:  # noqa
+                    bad.append(("generic-SI-derived-value-raised", a.__name__,
+                                type(ex).__name__))
                 # the unit text of a generic value names its signature
                 for g in (ga, gb):
                     try:
@@ -395,6 +408,29 @@ def si_worker(task):
                         if back != sg:
                             bad.append(("roundtrip", sg, (div, hat, dot), st,
                                         back))
+    if kidx == 0 and nz == 1:
+        # the SI unit text of every named quantity class, in every format,
+        # names the signature of that class
+        for q in U.QUANTITIES:
+            for div in (True, False):
+                for hat in ("", "^"):
+                    for dot in ("", "."):
+                        n += 1
+                        try:
+                            st = q.siunit(div, hat, dot)
+                            # (the class text writes a bare numerator as
+                            # '1': '1' for Dimensionless, '1/s' for Frequency)
+                            txt = "" if st == "1" else \
+                                st[1:] if st.startswith("1/") else st
+                            back = list(SI.str_to_sisig(txt))
+                        except Exception as ex:  # noqa
+                            bad.append(("class-unit-text-raised", q.__name__,
+                                        div, hat, dot, type(ex).__name__))
+                            continue
+                        if back != list(q.sisig()):
+                            bad.append(("class-unit-text", q.__name__,
+                                        (div, hat, dot), st, back,
+                                        list(q.sisig())))
     return n, bad[:100]
 
 
